@@ -301,7 +301,8 @@ def extract() -> dict:
     add = _fn(bucket.body, "add", "Bucket")
     ratio = None
     ins_guard = evict_guard = False
-    for c in ast.walk(add):
+    # Bucket.add and the private helpers it calls (an extracted `_make_room(node)` keeps the eviction test where the model expects it)
+    for c in [x for f_ in _private_helpers(bucket, add) for x in ast.walk(f_)]:
         if isinstance(c, ast.Compare) and len(c.ops) == 1:
             l, op, r = c.left, c.ops[0], c.comparators[0]
             if isinstance(l, ast.BinOp) and isinstance(l.op, ast.Div) and isinstance(op, ast.GtE) \
